@@ -37,6 +37,10 @@ def case_poly2(ctx, cfg):
     poly = SL.POLYGONS[name]
     verts = dict(SL.rotations(poly))[rname]
     qs = SL.half_grid(poly)
+    # + points 1/1024 off every boundary point of the grid (just inside / just outside / just beyond a vertex): far from the
+    # library's 1e-8 tolerance, exactly representable, decided by the same exact oracle
+    eps = F(1, 1024)
+    qs = qs + [(q[0] + dx * eps, q[1] + dy * eps) for q in qs if SL.pip(poly, q) == "boundary" for dx, dy in ((1, 0), (-1, 0), (0, 1), (0, -1))]
     exact = np.array([SL.pip(poly, q) != "outside" for q in qs])
     for q in qs:
         ctx.tally(SL.position_class(poly, q))
